@@ -3,6 +3,7 @@ from __future__ import annotations
 
 import enc
 import gen
+import hkspy
 from props.common import load_def, mk_nfa, outcome
 from automata.fa.dfa import DFA
 from automata.fa.nfa import NFA
@@ -10,7 +11,7 @@ from automata.fa.nfa import NFA
 RULE = ("random pairs of valid NFAs over a common alphabet (1-5 states, epsilon edges/cycles, nondeterminism) plus pairs "
         "built to be equivalent (an NFA vs its epsilon-eliminated form, vs the NFA view of its determinisation, vs its "
         "double reversal) and near-equivalent (one final flag flipped), and ultimately periodic 'lasso' pairs (periods 2 vs 3, a cycle vs its unrolling, one flag changed); ==, != in both argument orders compared with "
-        "the proved comparator and, for ==, with the mirror model of the code's Hopcroft-Karp/union-find loop over subset states (two symbol orders and tie-breaks, both argument orders); additionally == is compared with DFA equality of the determinisations. distinct = "
+        "the proved comparator and, for ==, with the mirror model of the code's Hopcroft-Karp/union-find loop over subset states (two symbol orders and tie-breaks, both argument orders), and the sequence of union calls observed by a spy on networkx's UnionFind is compared with the mirror model run under the observed schedule; additionally == is compared with DFA equality of the determinisations. distinct = "
         "canonical pair; non-trivial = both languages non-empty and the operands are not literally identical")
 
 
@@ -18,6 +19,33 @@ def variants(rng, n):
     yield "eliminated", n.eliminate_lambda()
     yield "determinised", NFA.from_dfa(DFA.from_nfa(n, minify=bool(rng.getrandbits(1))))
     yield "reversed_twice", n.reverse().reverse()
+
+
+def hk_trace_problems(ctx, a, b, ta, tb, sy, eq_outcome, label):
+    if a.input_symbols != b.input_symbols:
+        return []
+    sta, stb = enc.Renum(enc.nfa_names(a)), enc.Renum(enc.nfa_names(b))
+
+    def el(e):
+        qs, idx = e
+        st = (sta, stb)[idx]
+        return [idx, sorted(st(q) for q in qs)]
+
+    got, rec = hkspy.observe_eq(a, b)
+    order = [sy(c) for c in a.input_symbols]
+    ties = [[el(x), el(y)] for x, y in rec.first_wins]
+    m_res, m_log = ctx.driver.batch([(7, 7, enc.tree([ta, tb, order, ties]))])[0]
+    m_res = enc.dec_res(m_res)
+    want = ("ok", m_res[1] == 1) if m_res[0] == "ok" else ("err", m_res[1])
+    calls = [[el(x), el(y)] for x, y in rec.calls]
+    out = []
+    if got[:2] != want or got[:2] != eq_outcome[:2]:
+        out.append(f"{label} under the observed schedule: impl {got} (unobserved run {eq_outcome}) mirror model {want}")
+    if calls != m_log:
+        out.append(f"{label}: union-find calls differ from the mirror model's: impl {calls} model {m_log}")
+    ctx.tally("hk_trace_compared")
+    ctx.tally(f"hk_unions_{min(len(calls), 6)}{'+' if len(calls) >= 6 else ''}")
+    return out
 
 
 def check_pair(ctx, a, b, tag, defs=None):
@@ -44,6 +72,10 @@ def check_pair(ctx, a, b, tag, defs=None):
         if got[k][:2] != mw:
             problems.append(f"{k}: impl {got[k]} Hopcroft-Karp mirror model ({sched}) {mw}")
     ctx.tally("hk_mirror_compared")
+    # the run of the loop itself: union calls seen by a spy on networkx's UnionFind against the mirror model driven
+    # by the schedule the implementation actually used (symbol iteration order, tie-breaks); both argument orders
+    problems += hk_trace_problems(ctx, a, b, ta, tb, sy, got["eq"], "eq")
+    problems += hk_trace_problems(ctx, b, a, tb, ta, sy, got["eq_rev"], "eq_rev")
     da, db = DFA.from_nfa(a), DFA.from_nfa(b)
     if got["eq"][0] == "ok" and (da == db) != got["eq"][1]:
         problems.append(f"== on the NFAs is {got['eq'][1]} but == on their determinisations is {da == db}")
